@@ -20,7 +20,7 @@ SNAPSHOT = '1f51a90'          # the commit the anchors' line numbers refer to
 EXTRA = {
     'C01': {'lentil/fourier.py': ['dft2', 'idft2', '_dft2_matrices', '_dft2_coords']},
     'C02': {'lentil/propagate.py': ['propagate_dft', '_dft_alpha', '_mask_shape', '_mask_shift'], 'lentil/fourier.py': ['dft2', '_dft2_matrices', '_dft2_coords'],
-            'lentil/wavefront.py': ['Wavefront.field', 'Wavefront.intensity']},
+            'lentil/wavefront.py': ['Wavefront.field', 'Wavefront.intensity'], 'lentil/util.py': ['boundary']},
     'C03': {'lentil/extent.py': ['array_extent', 'intersect', 'intersection_slices', 'intersection_shift'], 'lentil/plane.py': ['Plane.shape', 'Plane.mask', 'Plane.multiply', '_plane_slice', 'TiltInterface.multiply', 'Tilt.__init__', 'Plane.fit_tilt', 'Pupil.multiply'], 'lentil/util.py': ['boundary'],
             'lentil/propagate.py': ['_dft_alpha', 'propagate_dft'], 'lentil/field.py': ['Field.shape', 'Field.size', 'Field.__init__', 'Field.__mul__', 'reduce', '_reduce', '_disjoint', '_merge', 'insert'],
             'lentil/fourier.py': ['dft2', '_dft2_matrices', '_dft2_coords'], 'lentil/wavefront.py': ['Wavefront.intensity', 'Wavefront.field', 'Wavefront.__mul__']},
